@@ -258,9 +258,8 @@ def _apply_split0(n, transforms):
         if not (inner[0] == "rep" and inner[1][0] == "cls" and inner[2] >= 1 and inner[3] is None):
             raise Unsupported("split()[0] on a group that is not a simple C+ class repetition")
         neg, items = inner[1][1], inner[1][2]
-        if not neg:
-            raise Unsupported("split()[0] on a positive class")
-        head_cls = ("cls", True, tuple(items) + ((ord(sep), ord(sep)),))
+        codes = [c for c in ALPHABET if any(a <= c <= b for a, b in items) != neg]
+        head_cls = ("set", tuple(c for c in codes if c != ord(sep)))
         # C+ = (C minus sep)* [ sep C* ]  with at least one character overall; split(sep)[0] is the first part
         head = ("cap", n[1], ("rep", head_cls, 0, None))
         tail = ("rep", ("cat", [("lit", sep), ("rep", inner[1], 0, None)]), 0, 1)
